@@ -243,6 +243,47 @@ def fill_elem(x, kind, salt=0):
 
 
 # --------------------------------------------------------------------------
+# array layouts
+# --------------------------------------------------------------------------
+
+def guarded_layout(vals, layout):
+    """Copy of `vals` with the given memory layout ('C', 'F', 'strided'),
+    carved out of the middle of a larger zeroed buffer.
+
+    The guard zones are not decoration.  NumPy's inner loops choose between
+    their SIMD and scalar bodies with an overlap test on the *phantom* extent
+    ``start + stride * len`` of each operand, which for a strided operand
+    reaches past its last element; when an unrelated heap block happens to
+    lie there the scalar body runs, and e.g. complex multiply then differs
+    in the last bit (no FMA).  Without guard zones the bits a call returns
+    depend on where malloc put the operands (seen twice in 4M C17 runs), so
+    every array the harness hands to odl keeps foreign blocks out of reach.
+    """
+    vals = np.asarray(vals)
+    shape = vals.shape
+    if vals.ndim == 0 or vals.size == 0:
+        return np.array(vals, copy=True)
+    if layout == 'strided':
+        inner = shape[:-1] + (2 * shape[-1] + 1,)
+    else:
+        inner = shape
+    total = 1
+    for n in inner:
+        total *= n
+    pad = total + 16
+    buf = np.zeros(total + 2 * pad, dtype=vals.dtype)
+    mid = buf[pad:pad + total]
+    if layout == 'F':
+        arr = mid.reshape(shape[::-1]).T
+    elif layout == 'strided':
+        arr = mid.reshape(inner)[..., 1::2]
+    else:
+        arr = mid.reshape(shape)
+    arr[...] = vals
+    return arr
+
+
+# --------------------------------------------------------------------------
 # tolerance helpers
 # --------------------------------------------------------------------------
 
